@@ -40,7 +40,8 @@ def parse_struct(text):
     n = int(head.group(1))
     rest = head.group(2)
     fields = []
-    for m in re.finditer(r'#\[(bits?)\((.*)\)\]\s*((?:r#)?\w+)\s*:\s*(.+?),\s*$', text, re.M):
+    # (doc comment lines may stand between the attribute and the field name)
+    for m in re.finditer(r'#\[(bits?)\((.*)\)\]\s*(?:///[^\n]*\n\s*)*((?:r#)?\w+)\s*:\s*(.+?),\s*$', text, re.M):
         form, body, name, ty = m.group(1), m.group(2), m.group(3), m.group(4).strip()
         args = split_top(body)
         # the range argument is the one that is a number, a range or a list (the arguments may come in any order)
